@@ -1,6 +1,7 @@
 package main
 
 import (
+	"bufio"
 	"bytes"
 	"encoding/hex"
 	"fmt"
@@ -641,6 +642,41 @@ func runC19(c Case, m *Model) (v Verdict) {
 	if !rd.sawEOF {
 		v.Oracle = append(v.Oracle, fmt.Sprintf("%d calls did not reach the end of a stream of %d bytes", maxCalls, total))
 		return
+	}
+	// the same stream through sources of other kinds (a *bufio.Reader over the same fragmentation, bytes.Reader,
+	// bytes.Buffer, strings.Reader): call by call the same records and errors
+	if len(c.Op)%2 == 0 {
+		alts := []struct {
+			name string
+			rd   io.Reader
+		}{
+			{"*bufio.Reader", bufio.NewReaderSize(&fragReader{data: append([]byte{}, data...), frags: append([]int{}, fr...), eofData: f["e"] == "1"}, 16)},
+			{"*bufio.Reader(4096)", bufio.NewReader(bytes.NewReader(data))},
+			{"*bytes.Reader", bytes.NewReader(data)},
+			{"*bytes.Buffer", bytes.NewBuffer(append([]byte{}, data...))},
+			{"*strings.Reader", strings.NewReader(string(data))},
+		}
+		for _, a := range alts {
+			bad := ""
+			for n := 0; n < len(calls) && bad == ""; n++ {
+				var out []byte
+				var ts int32
+				var err error
+				if p := try(func() { out, ts, err = midicat.ReadAndConvert(a.rd) }); p != "" {
+					bad = fmt.Sprintf("call %d panicked: %s", n, p)
+					break
+				}
+				w := calls[n]
+				if (err == nil) != w.ok || (w.ok && (ts != w.ts || string(out) != string(w.bs))) {
+					bad = fmt.Sprintf("call %d returns ok=%v ts=%d % X, through the fragmenting reader ok=%v ts=%d % X", n, err == nil, ts, out, w.ok, w.ts, w.bs)
+				}
+			}
+			if bad != "" {
+				v.Oracle = append(v.Oracle, "the same stream read through a "+a.name+": "+bad)
+				break
+			}
+		}
+		v.Tags = append(v.Tags, "other-reader-kinds")
 	}
 	// model
 	mf := fields(m.Ask(c.Op))
